@@ -41,6 +41,9 @@ type Engine struct {
 	globalIDs      map[*ssa.Global]int
 	curProp        string
 	scopeKinds     map[*ssa.Function][]string
+	closerMemo *closerInfo
+	deadMemo   map[*ssa.Function]bool
+	deadSkipped map[string]bool
 	closeMemo      map[*ssa.Function]int
 }
 
@@ -98,6 +101,7 @@ func loadEngine(repo string, contractMirror string) (*Engine, error) {
 	prog, _ := ssautil.AllPackages(pkgs, ssa.GlobalDebug|ssa.InstantiateGenerics)
 	prog.Build()
 	e.prog = prog
+	e.deadSkipped = map[string]bool{}
 	for _, p := range prog.AllPackages() {
 		e.spkgs[p.Pkg.Path()] = p
 		e.tpkgs[p.Pkg.Path()] = p.Pkg
@@ -214,6 +218,8 @@ func (e *Engine) loadSpecs(externDir string) error {
 				old.FinalTags = append(old.FinalTags, t.FinalTags...)
 				old.FinalDecls = append(old.FinalDecls, t.FinalDecls...)
 				old.Private = append(old.Private, t.Private...)
+				old.Transient = append(old.Transient, t.Transient...)
+				old.LockInvs = append(old.LockInvs, t.LockInvs...)
 				old.Owns = append(old.Owns, t.Owns...)
 				old.Inits = append(old.Inits, t.Inits...)
 				old.Atomic = append(old.Atomic, t.Atomic...)
@@ -269,6 +275,7 @@ func (e *Engine) loadSpecs(externDir string) error {
 					old.Modifies = append(old.Modifies, f.Modifies...)
 				}
 				old.Trusted = old.Trusted || f.Trusted
+				old.TrustedTags = append(old.TrustedTags, f.TrustedTags...)
 				old.Helper = old.Helper || f.Helper
 				old.Inline = old.Inline || f.Inline
 				continue
@@ -546,4 +553,333 @@ func (e *Engine) mayClose(fn *ssa.Function) bool {
 		e.closeMemo[fn] = 1
 	}
 	return res
+}
+
+// ---------------------------------------------------------------------------
+// Who closes the channels kept in a guarded field?  For every close(x) in the
+// module the provenance of x is determined syntactically: an element of (or the
+// value of) struct field T.f, or a channel made in the same function (then the
+// fields it is stored into), or unknown.  Channels of a type with a closer of
+// unknown provenance, and channels kept in a field that has closers, may be
+// closed by another goroutine whenever the guarding lock is not held.
+
+type closerInfo struct {
+	stores  map[string][]ssa.Value // "pkg.T.f" -> channel values stored into the field (or its container)
+	byField map[string][]string // "pkg.T.f" -> closing functions
+	unknown map[string][]string // channel element type key -> closing functions of unknown provenance
+	anyOf   map[string]bool     // channel element type key -> some close() on that type exists
+}
+
+func fieldOfAddr(v ssa.Value) string {
+	fa, ok := v.(*ssa.FieldAddr)
+	if !ok {
+		return ""
+	}
+	pt, ok := fa.X.Type().Underlying().(*types.Pointer)
+	if !ok {
+		return ""
+	}
+	st, ok := pt.Elem().Underlying().(*types.Struct)
+	if !ok {
+		return ""
+	}
+	name := "?"
+	if n, ok := pt.Elem().(*types.Named); ok && n.Obj().Pkg() != nil {
+		name = n.Obj().Pkg().Path() + "." + n.Obj().Name()
+	} else if inner, ok := fa.X.(*ssa.FieldAddr); ok {
+		name = fieldOfAddr(inner) // field of an anonymous struct field
+	}
+	return name + "." + st.Field(fa.Field).Name()
+}
+
+// chanProvenance: fields a channel value comes from ("" entries: unknown).
+func chanProvenance(v ssa.Value, depth int) []string {
+	if depth > 6 {
+		return []string{""}
+	}
+	switch x := v.(type) {
+	case *ssa.UnOp:
+		if x.Op == token.MUL {
+			if f := fieldOfAddr(x.X); f != "" {
+				return []string{f}
+			}
+		}
+	case *ssa.Extract:
+		return chanProvenance(x.Tuple, depth+1)
+	case *ssa.Next:
+		return chanProvenance(x.Iter, depth+1)
+	case *ssa.Range:
+		return chanProvenance(x.X, depth+1)
+	case *ssa.Lookup:
+		return chanProvenance(x.X, depth+1)
+	case *ssa.ChangeType:
+		return chanProvenance(x.X, depth+1)
+	case *ssa.TypeAssert:
+		return chanProvenance(x.X, depth+1)
+	case *ssa.MakeInterface:
+		return chanProvenance(x.X, depth+1)
+	case *ssa.Phi:
+		var out []string
+		for _, e := range x.Edges {
+			out = append(out, chanProvenance(e, depth+1)...)
+		}
+		return out
+	case *ssa.MakeChan:
+		// a channel made here: the fields it is stored into
+		var out []string
+		var follow func(v ssa.Value)
+		follow = func(v ssa.Value) {
+			if v.Referrers() == nil {
+				return
+			}
+			for _, r := range *v.Referrers() {
+				switch u := r.(type) {
+				case *ssa.MakeInterface:
+					follow(u)
+				case *ssa.MapUpdate:
+					if u.Value == v {
+						out = append(out, chanProvenance(u.Map, depth+1)...)
+					}
+				case *ssa.Store:
+					if u.Val == v {
+						if f := fieldOfAddr(u.Addr); f != "" {
+							out = append(out, f)
+						} else if _, isAlloc := u.Addr.(*ssa.Alloc); !isAlloc {
+							out = append(out, "")
+						}
+					}
+				}
+			}
+		}
+		follow(x)
+		if len(out) == 0 {
+			out = []string{"<local>"}
+		}
+		return out
+	}
+	return []string{""}
+}
+
+func (e *Engine) closers() *closerInfo {
+	if e.closerMemo != nil {
+		return e.closerMemo
+	}
+	ci := &closerInfo{byField: map[string][]string{}, unknown: map[string][]string{}, stores: map[string][]ssa.Value{}, anyOf: map[string]bool{}}
+	for _, fn := range e.funcsByName {
+		root := fn
+		for root.Parent() != nil {
+			root = root.Parent()
+		}
+		if root.Pkg == nil || !inModule(root.Pkg.Pkg) || fn.Synthetic != "" || e.deadFuncs()[root] {
+			continue
+		}
+		for _, b := range fn.Blocks {
+			for _, in := range b.Instrs {
+				var cc *ssa.CallCommon
+				switch x := in.(type) {
+				case *ssa.MapUpdate:
+					if isChanOrBoxed(x.Value) {
+						for _, p := range chanProvenance(x.Map, 0) {
+							ci.stores[p] = append(ci.stores[p], x.Value)
+						}
+					}
+				case *ssa.Store:
+					if isChanOrBoxed(x.Val) {
+						if fl := fieldOfAddr(x.Addr); fl != "" {
+							ci.stores[fl] = append(ci.stores[fl], x.Val)
+						}
+					}
+				case *ssa.Call:
+					cc = &x.Call
+				case *ssa.Defer:
+					cc = &x.Call
+				case *ssa.Go:
+					cc = &x.Call
+				}
+				if cc == nil {
+					continue
+				}
+				if bi, ok := cc.Value.(*ssa.Builtin); !ok || bi.Name() != "close" {
+					continue
+				}
+				ct, ok := cc.Args[0].Type().Underlying().(*types.Chan)
+				if !ok {
+					continue
+				}
+				ci.anyOf[typeKey(ct.Elem())] = true
+				for _, p := range chanProvenance(cc.Args[0], 0) {
+					switch p {
+					case "":
+						ci.unknown[typeKey(ct.Elem())] = append(ci.unknown[typeKey(ct.Elem())], fn.String())
+					case "<local>":
+					default:
+						ci.byField[p] = append(ci.byField[p], fn.String())
+					}
+				}
+			}
+		}
+	}
+	e.closerMemo = ci
+	return ci
+}
+
+// chanTypeIn: the channel type kept in a field of type t (the field itself, or the
+// elements of a map or slice).
+func chanTypeIn(t types.Type) *types.Chan {
+	switch u := t.Underlying().(type) {
+	case *types.Chan:
+		return u
+	case *types.Map:
+		if c, ok := u.Elem().Underlying().(*types.Chan); ok {
+			return c
+		}
+	case *types.Slice:
+		if c, ok := u.Elem().Underlying().(*types.Chan); ok {
+			return c
+		}
+	}
+	return nil
+}
+
+func isChanOrBoxed(v ssa.Value) bool {
+	if _, ok := v.Type().Underlying().(*types.Chan); ok {
+		return true
+	}
+	if mi, ok := v.(*ssa.MakeInterface); ok {
+		_, ok := mi.X.Type().Underlying().(*types.Chan)
+		return ok
+	}
+	return false
+}
+
+// neverClosed: no code in the module can close the channel v.  v comes from fields
+// whose channels are all made freshly by the storing function, none of those channels
+// is also kept somewhere that has closers, and no close() of unknown provenance
+// exists for the channel type.  (Code outside the module is assumed not to close the
+// module's internal channels.)
+func (e *Engine) neverClosed(v ssa.Value) (bool, string) {
+	ct, ok := v.Type().Underlying().(*types.Chan)
+	if !ok {
+		return false, ""
+	}
+	ci := e.closers()
+	if !ci.anyOf[typeKey(ct.Elem())] {
+		return true, "any channel of type " + ct.String() + " (the module never closes one)"
+	}
+	if len(ci.unknown[typeKey(ct.Elem())]) > 0 {
+		return false, ""
+	}
+	ps := chanProvenance(v, 0)
+	if len(ps) == 0 {
+		return false, ""
+	}
+	for _, p := range ps {
+		if p == "" || p == "<local>" {
+			return false, ""
+		}
+		if !e.fieldNeverClosed(ci, p) {
+			return false, ""
+		}
+	}
+	return true, strings.Join(ps, ", ")
+}
+
+func (e *Engine) fieldNeverClosed(ci *closerInfo, p string) bool {
+	if len(ci.byField[p]) > 0 || len(ci.stores[p]) == 0 {
+		return false
+	}
+	for _, sv := range ci.stores[p] {
+		if mi, ok := sv.(*ssa.MakeInterface); ok {
+			sv = mi.X
+		}
+		mc, ok := sv.(*ssa.MakeChan)
+		if !ok {
+			return false
+		}
+		for _, q := range chanProvenance(mc, 0) {
+			if q == "" || q == "<local>" || len(ci.byField[q]) > 0 {
+				return false
+			}
+		}
+	}
+	return true
+}
+
+// ---------------------------------------------------------------------------
+// Unreachable functions: unexported, never referenced by any instruction of the
+// module (call target, function value, closure), and not callable through an
+// interface (no interface method or invoke of that name).  Nothing a user does can
+// run them; they are left out of the safety sweeps and of the closer analysis and
+// are listed in the evidence.
+
+func (e *Engine) deadFuncs() map[*ssa.Function]bool {
+	if e.deadMemo != nil {
+		return e.deadMemo
+	}
+	referenced := map[*ssa.Function]bool{}
+	invoked := map[string]bool{}
+	var all []*ssa.Function
+	for _, fn := range e.funcsByName {
+		root := fn
+		for root.Parent() != nil {
+			root = root.Parent()
+		}
+		if root.Pkg == nil || !inModule(root.Pkg.Pkg) {
+			continue
+		}
+		all = append(all, fn)
+		for _, b := range fn.Blocks {
+			for _, in := range b.Instrs {
+				var ops []*ssa.Value
+				for _, op := range in.Operands(ops) {
+					if op == nil || *op == nil {
+						continue
+					}
+					if g, ok := (*op).(*ssa.Function); ok {
+						referenced[g] = true
+						if g.Synthetic != "" { // bound-method closure or thunk: the method itself
+							if obj, ok := g.Object().(*types.Func); ok {
+								if m := e.prog.FuncValue(obj); m != nil {
+									referenced[m] = true
+								}
+							}
+						}
+						if o := g.Origin(); o != nil {
+							referenced[o] = true
+						}
+					}
+				}
+				if c, ok := in.(ssa.CallInstruction); ok && c.Common().IsInvoke() {
+					invoked[c.Common().Method.Name()] = true
+				}
+			}
+		}
+	}
+	for _, p := range e.prog.AllPackages() {
+		if !inModule(p.Pkg) {
+			continue
+		}
+		sc := p.Pkg.Scope()
+		for _, n := range sc.Names() {
+			if tn, ok := sc.Lookup(n).(*types.TypeName); ok {
+				if it, ok := tn.Type().Underlying().(*types.Interface); ok {
+					for i := 0; i < it.NumMethods(); i++ {
+						invoked[it.Method(i).Name()] = true
+					}
+				}
+			}
+		}
+	}
+	dead := map[*ssa.Function]bool{}
+	for _, fn := range all {
+		if fn.Parent() != nil || fn.Synthetic != "" || len(fn.Blocks) == 0 {
+			continue
+		}
+		if token.IsExported(fn.Name()) || fn.Name() == "init" || fn.Name() == "main" || referenced[fn] || invoked[fn.Name()] {
+			continue
+		}
+		dead[fn] = true
+	}
+	e.deadMemo = dead
+	return dead
 }
